@@ -246,6 +246,60 @@ def unit_C16s(src_swz):
     return u
 
 
+PRIMS = ['usize', 'u8', 'u16', 'u32', 'u64', 'isize', 'i8', 'i16', 'i32', 'i64', 'f32', 'f64']
+
+
+def unit_C17p(src):
+    """scalar on the left for each of the twelve primitive types: each primitive is an opaque model type (prelude_P)"""
+    from emit import Contract, trait_name, trait_args
+    from common import base_type
+    u = Unit('C17p', src, 'P')
+    u.subst = {}
+    u.canaries = []
+    XY = 'xyzw'
+
+    def lit(ty, prim, op, arg):
+        """struct literal of  prim OP arg  component-wise, scalar as LEFT operand"""
+        n = int(ty[-1]) if ty[-1].isdigit() else 0
+        pm = 'pm_%s_%s' % (op, prim)
+        if ty.startswith('Vector') or ty.startswith('Point'):
+            return '(%s { %s })' % (ty, ', '.join('%s: %s(self, %s.%s)' % (f, pm, arg, f) for f in XY[:n]))
+        if ty.startswith('Matrix'):
+            return '(%s { %s })' % (ty, ', '.join('%s: %s' % (c, lit('Vector%d' % n, prim, op, '%s.%s' % (arg, c))) for c in XY[:n]))
+        if ty == 'Quaternion':
+            return '(Quaternion { v: %s, s: %s(self, %s.s) })' % (lit('Vector3', prim, op, arg + '.v'), pm, arg)
+
+    def contracts(unit, im, f):
+        if im is None:
+            return None
+        tn = trait_name(im.trait)
+        if im.selfty in PRIMS and tn in ('Mul', 'Div', 'Rem'):
+            ta = trait_args(im.trait)
+            ty, rref = base_type(ta)
+            arg = '(*$1)' if rref else '$1'
+            sp = lit(ty, im.selfty, tn.lower(), arg)
+            return Contract(ensures=['ret == ' + sp], spec=lit(ty, im.selfty, tn.lower(), '(*rhs)' if rref else 'rhs'))
+        st, _ = base_type(im.selfty)
+        if tn is None and f.name == 'new' and re.fullmatch(r'(Vector|Point)[1-4]', st):
+            n = int(st[-1])
+            return Contract(ensures=['ret == (%s { %s })' % (st, ', '.join('%s: $%d' % (XY[i], i) for i in range(n)))])
+        if tn is None and f.name == 'from_sv' and st == 'Quaternion':
+            return Contract(ensures=['ret == (Quaternion { v: $1, s: $0 })'])
+        if tn == 'Clone':
+            return Contract(ensures=[])
+        return None
+    u.contract_fns.append(contracts)
+    u.assume_pred = lambda im, f: im is not None and trait_name(im.trait) == 'Clone'
+    prim_re = '(' + '|'.join(PRIMS) + ')'
+    u.select(Sel('Mul', prim_re), Sel('Div', prim_re), Sel('Rem', prim_re),
+             Sel(None, r'(Vector[1-4]|Point[1-3])<S>', ['new'], generics=r'<S>'), Sel(None, r'Quaternion<S>', ['from_sv'], generics=r'<S>'),
+             Sel('Clone', r'(Vector[1-4]|Point[1-3]|Matrix[2-4]|Quaternion)<S>'), Sel('Copy', r'(Vector[1-4]|Point[1-3]|Matrix[2-4]|Quaternion)<S>'))
+    for p in PRIMS:
+        u.scoped_subst.append((lambda im, p=p: im.selfty == p, {p: 'P_' + p}))
+    u.struct_names = ['Vector1', 'Vector2', 'Vector3', 'Vector4', 'Point1', 'Point2', 'Point3', 'Matrix2', 'Matrix3', 'Matrix4', 'Quaternion']
+    return u
+
+
 def unit_C06(src, angle_kind='Rad'):
     u = Unit('C06' + ('' if angle_kind == 'Rad' else 'deg'), src, 'R')
     lib, F = full_base(u, angle_kind)
@@ -509,7 +563,7 @@ def build_C03(src, tier):
     return [unit_C03(src, 'R')]
 
 
-UNITS = {'C16': lambda src, tier: [unit_C16s(Source_swz())], 'C17': lambda src, tier: [unit_C17(src)], 'C09': lambda src, tier: [unit_C09(src, 'q'), unit_C09(src, 'b3'), unit_C09(src, 'b2'), unit_C09i(src)], 'C15': lambda src, tier: [unit_arc(src, 'C15')], 'C14': lambda src, tier: [unit_arc(src, 'C14')], 'C18': lambda src, tier: [unit_C18(src)], 'C11': lambda src, tier: [unit_C11(src)], 'C10': lambda src, tier: [unit_C10(src, 'Rad'), unit_C10(src, 'Deg')], 'C08': lambda src, tier: [unit_C08(src, 'q'), unit_C08(src, 'b3'), unit_C08(src, 'b2')], 'C05': lambda src, tier: [unit_conv(src, 'C05', 'Rad')], 'C07': lambda src, tier: [unit_conv(src, 'C07', 'Rad'), unit_conv(src, 'C07', 'Deg')], 'C06': lambda src, tier: [unit_C06(src, 'Rad'), unit_C06(src, 'Deg')], 'C13': lambda src, tier: [unit_C13(src, 'R')], 'C04': lambda src, tier: [unit_C04(src, 'R')], 'C02': lambda src, tier: [unit_C02(src, 'R'), unit_C02t(src)], 'C01': lambda src, tier: [unit_C01(src, 'R'), unit_C01t(src, 'R')], 'C03': build_C03, 'C12': lambda src, tier: [unit_C12(src, 'R')]}
+UNITS = {'C16': lambda src, tier: [unit_C16s(Source_swz())], 'C17': lambda src, tier: [unit_C17(src), unit_C17p(src)], 'C09': lambda src, tier: [unit_C09(src, 'q'), unit_C09(src, 'b3'), unit_C09(src, 'b2'), unit_C09i(src)], 'C15': lambda src, tier: [unit_arc(src, 'C15')], 'C14': lambda src, tier: [unit_arc(src, 'C14')], 'C18': lambda src, tier: [unit_C18(src)], 'C11': lambda src, tier: [unit_C11(src)], 'C10': lambda src, tier: [unit_C10(src, 'Rad'), unit_C10(src, 'Deg')], 'C08': lambda src, tier: [unit_C08(src, 'q'), unit_C08(src, 'b3'), unit_C08(src, 'b2')], 'C05': lambda src, tier: [unit_conv(src, 'C05', 'Rad')], 'C07': lambda src, tier: [unit_conv(src, 'C07', 'Rad'), unit_conv(src, 'C07', 'Deg')], 'C06': lambda src, tier: [unit_C06(src, 'Rad'), unit_C06(src, 'Deg')], 'C13': lambda src, tier: [unit_C13(src, 'R')], 'C04': lambda src, tier: [unit_C04(src, 'R')], 'C02': lambda src, tier: [unit_C02(src, 'R'), unit_C02t(src)], 'C01': lambda src, tier: [unit_C01(src, 'R'), unit_C01t(src, 'R')], 'C03': build_C03, 'C12': lambda src, tier: [unit_C12(src, 'R')]}
 import kani_driver
 KANI = kani_driver.GROUPS
 from meta import META
